@@ -218,12 +218,20 @@ def dec_faults(tier, seed, path):
 
 def dec_anyhist(tier, seed, path):
     n = 150 if tier == 'quick' else 6000
-    return dec_gen.write(path, dec_gen.anyhist(seed + 13, n, 'a', tecmp=False))
+    return dec_gen.write(path, dec_gen.anyhist(seed + 13, n, 'a', tecmp=True))
 
 
 def dec_frames(tier, seed, path):
     n = 300 if tier == 'quick' else 10000
     return dec_gen.write(path, dec_gen.frames(seed + 17, n, 'c'))
+
+
+def dec_tecmp(tier, seed, path):
+    return dec_gen.write(path, dec_gen.tecmp(seed + 19, 80 if tier == 'quick' else 3000, 't'))
+
+
+def nt_tecmp(c):
+    return any(len(op.get('in', [])) >= 29 and op['in'][0] == 0 and op['in'][5] in (1, 2, 3) for op in c.get('ops', []))
 
 
 DEC_INV = ['InvC05', 'InvC06', 'InvPendingIsRun']
@@ -239,6 +247,9 @@ DEC_ANY = {'kind': 'mc', 'tree': True, 'name': 'anyhistory', 'module': 'MC_DecAn
 DEC_MCFRAMES = {'kind': 'mc', 'name': 'frames', 'module': 'MC_Frames', 'comp': 'dec', 'trace': 'TraceDec',
                 'cfg': {'quick': 'MC_Frames_quick.cfg', 'thorough': 'MC_Frames_thorough.cfg'},
                 'invariants': ['InvC04', 'InvSupersede', 'InvC02']}
+DEC_MCTECMP = {'kind': 'mc', 'name': 'tecmp', 'module': 'MC_Tecmp', 'comp': 'dec', 'trace': 'TraceDec', 'variant': 'asan',
+               'cfg': {'quick': 'MC_Tecmp_quick.cfg', 'thorough': 'MC_Tecmp_thorough.cfg'}, 'invariants': ['InvC15']}
+DEC_RTECMP = {'kind': 'gen', 'name': 'randomtecmp', 'gen': dec_tecmp, 'comp': 'dec', 'trace': 'TraceDec', 'variant': 'asan'}
 DEC_STREAMS = {'kind': 'gen', 'name': 'streams', 'gen': dec_streams, 'comp': 'dec', 'trace': 'TraceDec'}
 DEC_RFAULTS = {'kind': 'gen', 'name': 'randomfaults', 'gen': dec_faults, 'comp': 'dec', 'trace': 'TraceDec'}
 DEC_RANY = {'kind': 'gen', 'name': 'randomhistory', 'gen': dec_anyhist, 'comp': 'dec', 'trace': 'TraceDec'}
@@ -355,4 +366,15 @@ PROPS = {
                     '=> header present, inner structure consistent, every reported view inside the payload. Non-trivial = distinct '
                     'episodes (each holds validity checks).',
             'assumptions': COMMON_ASSUMPTIONS + ['an out-of-bounds read inside the library\'s own vectors is observed by ASan (crash event), not by TLC']},
+    'C15': {'level': 'model_checking', 'stages': [DEC_MCTECMP, DEC_RTECMP], 'nontrivial_case': nt_tecmp,
+            'rule': 'MC_Tecmp: message type over all 256 values x 6 data types, data type over all 65536 values, CAN / CAN-FD / LIN '
+                    'data lengths 0..64 with consistent and short payloads and 0..5 trailing CRC bytes, bus status with 0..40 entries '
+                    'and shorter than its generic data, capture-module status of every size 1..46, declared payload lengths '
+                    'consistent and not, truncated headers; each frame converted by the real decoder (ASan + UBSan build, input at '
+                    'a guard page); plus seeded random TECMP messages with arbitrary header fields. Monitor TecmpOK: packets = '
+                    'Tecmp!TecmpDecode on device id, timestamp, interface id, CAN id (29 bits), LIN id (6 bits) and checksum, data '
+                    'and data length, serial / version strings, per-entry counters; none for unsupported kinds or lengths that do '
+                    'not fit. Non-trivial = distinct episodes containing a TECMP message of a supported message type.',
+            'assumptions': COMMON_ASSUMPTIONS + ['bytes after the declared TECMP payload length are not generated (their meaning is not pinned down)',
+                                                 'the CAN CRC word and the classic / FD choice are not prescribed by the property']},
 }
